@@ -241,7 +241,7 @@ pub fn cmd_payload(kind: &CmdKind, eff_types: Option<&[(u8, u8)]>) -> Vec<u8> {
             p.extend_from_slice(&param.to_le_bytes());
             data.append_to(&mut p);
         }
-        CmdKind::Raw(b) => b.append_to(&mut p),
+        CmdKind::Raw(b) | CmdKind::Unsupported(b) => b.append_to(&mut p),
     }
     p
 }
